@@ -17,15 +17,29 @@ typedef long double LD;
 struct CEval { const char* sym; const char* fn; const char* sig; double (*call)(const ApiArgs&); };
 #include "c_eval_gen.hpp"
 static int nbad = 0, nok = 0;
-static void probe(const std::string& name, std::function<void()> f) {
+// registry context of the probes: 0 nothing initialised anywhere; 1 the double registry holds a selected solution (every long double
+// entry point must still be fatal); 2 the long double registry holds one (every double and every C entry point must still be fatal)
+static int g_ctx = 0;
+static void probe(const std::string& name0, std::function<void()> f) {
+  bool ld_side = name0.find("<long double>") != std::string::npos;
+  if ((g_ctx == 1 && !ld_side) || (g_ctx == 2 && ld_side)) return;
+  std::string name = name0 + (g_ctx == 1 ? " [double registry initialised]" : g_ctx == 2 ? " [long double registry initialised]" : "");
   int pfd[2]; if (pipe(pfd)) exit(2); fflush(stdout);
   pid_t pid = fork();
-  if (pid == 0) { close(pfd[0]); dup2(pfd[1], 1); f(); std::cout.flush(); fflush(stdout); _exit(0); }
+  if (pid == 0) { close(pfd[0]);
+    if (g_ctx) { int dn = open("/dev/null", O_WRONLY); int saved = dup(1); dup2(dn, 1); if (g_ctx == 1) masa_init<double>("other", "euler_1d"); else masa_init<LD>("other", "euler_1d"); std::cout.flush(); fflush(stdout); dup2(saved, 1); close(saved); close(dn); }
+    dup2(pfd[1], 1); f(); std::cout.flush(); fflush(stdout); _exit(0); }
   close(pfd[1]); std::string out; char b[4096]; ssize_t n; while ((n = read(pfd[0], b, sizeof b)) > 0) out.append(b, n); close(pfd[0]); int st; waitpid(pid, &st, 0);
   bool ok = WIFEXITED(st) && WEXITSTATUS(st) == 1 && out.find("MASA FATAL ERROR") != std::string::npos;
   if (ok) { nok++; printf("OK %s\n", name.c_str()); } else { nbad++; printf("BAD %s: before any masa_init expected 'MASA FATAL ERROR' and exit status 1, got wait status %d, stdout='%.80s'\n", name.c_str(), st, out.c_str()); }
 }
+static void all_probes();
 int main() {
+  for (g_ctx = 0; g_ctx < 3; g_ctx++) all_probes();
+  fprintf(stderr, "empty-history probes: ok=%d bad=%d\n", nok, nbad);
+  return 0;
+}
+static void all_probes() {
   ApiArgs A; for (int k = 0; k < 4; k++) A.s[k] = 0.25L * (k + 1); A.i = 1; A.fd = [](double T) { return T; }; A.fl = [](LD T) { return T; };
   for (int k = 0; k < API_N; k++) {
     const ApiEntry* e = &API_TABLE[k];
@@ -46,6 +60,8 @@ int main() {
   BOTH("masa_get_dimension", masa_get_dimension<double>(&dim), masa_get_dimension<LD>(&dim));
   BOTH("masa_set_vec", masa_set_vec<double>("vec_mean", vd), masa_set_vec<LD>("vec_mean", vl));
   BOTH("masa_get_vec", masa_get_vec<double>("vec_mean", vd), masa_get_vec<LD>("vec_mean", vl));
+  BOTH("masa_test_poly", masa_test_poly<double>(), masa_test_poly<LD>());
+  BOTH("pass_func", pass_func<double>([](double x) { return x; }, 1.0), pass_func<LD>([](LD x) { return x; }, 1.0L));
   BOTH("masa_select_mms(unknown)", masa_select_mms<double>("nobody"), masa_select_mms<LD>("nobody"));
   BOTH("masa_init(bogus solution)", masa_init<double>("h", "no_such_solution"), masa_init<LD>("h", "no_such_solution"));
   char buf[128] = "x"; double arr[8] = {0}; int n = 2;
@@ -56,6 +72,5 @@ int main() {
   probe("C masa_get_dimension", [&] { masa_get_dimension(&dim); }); probe("C masa_set_array", [&] { masa_set_array("vec_mean", &n, arr); });
   probe("C masa_get_array", [&] { masa_get_array("vec_mean", &n, arr); }); probe("C masa_select_mms(unknown)", [&] { masa_select_mms("nobody"); });
   probe("C masa_init(bogus solution)", [&] { masa_init("h", "no_such_solution"); });
-  fprintf(stderr, "empty-history probes: ok=%d bad=%d\n", nok, nbad);
-  return 0;
 }
+
